@@ -48,6 +48,8 @@ FIRST_MISSED = {
     "C15-e": "missed at first; the same names formatted under both quoting styles added to alphabet and probes",
     "C18-e": "first only as a broken obligation; quoted text inside a column type (generated column) added to C18, column-type probes and 'an earlier parser must not change when a later one is built' signature to C15",
     "C19-e": "missed at first; sizes of 0 and time types with a precision added",
+    "C11-f": "first only as a broken correspondence (both sides of the substitution comparison carried the same leak); the rename map added to C11's option combinations, a leaked internal object is a finding whatever the comparison says",
+    "C15-f": "missed at first; process-wide settings (recursion limit, …) probed after every history, deeply bracketed accepted / rejected calls added to the alphabet",
     "C02-f": "missed at first; WITH in front of a wholly parenthesised body added",
     "C05-f": "missed at first (only FILTER … OVER was in the targeted list); aggregate modifiers in every accepted order added",
     "C06-f": "first only as a broken correspondence (backslash strings were all attributed to the known Python-evaluation defect); a decoding that is neither the text nor its Python evaluation is now a finding of its own",
